@@ -27,7 +27,7 @@ M.contract('xtuml.meta.MetaModel.define_association',
                                 'source_conditional, source_phrase, target_many, target_conditional, target_phrase)]'},
            modifies=['self.defined'])
 M.contract('bridgepoint.ooaofooa._get_related_attributes', [('r_rgo', INST), ('r_rto', INST)], returns=TupT(KEYS, KEYS), trusted=True,
-           reason='abstract: the referential / identifying attribute name lists of the pair of ends (verified separately where possible)',
+           reason='assumed: the referential / identifying attribute name lists of the pair of ends, pairwise by position; decided by the bounded tier (c14 item compound-keys)',
            ensures={'lists': 'result[0] == ref_attrs(r_rgo, r_rto) and result[1] == id_attrs(r_rgo, r_rto)'}, modifies=[])
 
 M.spec('''
@@ -106,3 +106,18 @@ M.contract('bridgepoint.ooaofooa._get_data_type_name', [('s_dt', INST)], returns
                      'names-are-strings': 'all(implies(d is not None, is_str(a(d, "NAME"))) for d in anyref("Class"))'},
            ensures={'core-upper-case-enum-integer-user-its-base': 'same(result, tname(s_dt))'},
            modifies=[])
+
+# ---- the pairing itself: the i-th referential name and the i-th identifying name come from the same O_REF row, in row order
+M.spec('''
+def paired(l1, l2, refs):
+    return (len(l1) == len(refs) and len(l2) == len(refs)
+            and all(same(l1[i], a(first_of(refs[i], "O_RATTR[R108].O_ATTR[R106]"), "NAME"))
+                    and same(l2[i], a(first_of(refs[i], "O_RTIDA[R111].O_OIDA[R110].O_ATTR[R105]"), "NAME")) for i in range(0, len(refs))))
+''')
+M.contract('bridgepoint.ooaofooa._get_related_attributes@pairing', [('r_rgo', INST), ('r_rto', INST)], returns=TupT(KEYS, KEYS),
+           requires={'ends': 'r_rgo is not None and r_rto is not None'},
+           ensures={'same-row-same-position-in-row-order':
+                    'any(paired(result[0], result[1], nav_all(r_rto, "O_RTIDA[R110].O_REF[R111]", f)) for f in ints())'},
+           modifies=[], locals={'l1': KEYS, 'l2': KEYS},
+           loops={0: Loop(inv={'paired-so-far': 'paired(l1, l2, seq_take(_seq, _i))',
+                               'walks-the-reference-rows': 'any(_seq == nav_all(r_rto, "O_RTIDA[R110].O_REF[R111]", f) for f in ints())'})})
